@@ -5,6 +5,7 @@
 package ivfreader
 
 import (
+	"bytes"
 	"encoding/binary"
 	"errors"
 	"fmt"
@@ -113,12 +114,19 @@ func (i *IVFReader) ParseNextFrame() ([]byte, *IVFFrameHeader, error) {
 		Timestamp: i.ptsToTimestamp(pts),
 	}
 
-	payload := make([]byte, header.FrameSize)
-	bytesRead, err = io.ReadFull(i.stream, payload)
-	if errors.Is(err, io.ErrUnexpectedEOF) {
+	// Do not trust FrameSize for the allocation: a corrupt header could
+	// otherwise request up to 4 GiB before a single payload byte is read.
+	var payloadBuffer bytes.Buffer
+	copied, err := io.CopyN(&payloadBuffer, i.stream, int64(header.FrameSize))
+	bytesRead = int(copied)
+	if errors.Is(err, io.EOF) && copied > 0 {
 		return nil, nil, errIncompleteFrameData
 	} else if err != nil {
 		return nil, nil, err
+	}
+	payload := payloadBuffer.Bytes()
+	if payload == nil {
+		payload = []byte{}
 	}
 
 	i.bytesReadSuccesfully += int64(headerBytesRead) + int64(bytesRead)
